@@ -747,6 +747,9 @@ pub fn record_c20(a: &Args) -> usize {
                                 }
                                 let st = Rc::new(RefCell::new(PortState::new(prior.clone())));
                                 st.borrow_mut().fail = fail.to_string();
+                                // the port's own time-out before set-up: none, short, exactly and beyond what the constructors ask for
+                                st.borrow_mut().timeout = [None, Some(Duration::from_millis(1)), Some(Duration::from_secs(5)), Some(Duration::from_secs(10)),
+                                                           Some(Duration::from_secs(11)), Some(Duration::from_secs(3600)), Some(Duration::MAX)][(k / 3) % 7];
                                 runs += 1;
                                 st.borrow_mut().fail_kind = runs / 3; // changes every third run: every kind meets every constructor and every call
                                 let port = IPort::new(st.clone());
@@ -786,7 +789,7 @@ pub fn record_c20(a: &Args) -> usize {
                                 }
                                 let any_failed = s.dev_log.iter().any(|e| e["ok"] == false);
                                 out.emit(json!({"e": "setupret", "res": match res { Ok(true) => "ok", Ok(false) => "err", Err(_) => "panic" },
-                                                "final": line_json(&s.line), "timeout_set": s.timeout.is_some(),
+                                                "final": line_json(&s.line), "timeout_set": s.dev_log.iter().any(|e| e["call"] == "set_timeout" && e["ok"] == true),
                                                 "timeout": s.timeout.map(|d| format!("{}.{:09}", d.as_secs(), d.subsec_nanos())).unwrap_or_default(), "any_failed": any_failed}));
                             }
                             k += 1;
@@ -829,6 +832,9 @@ fn sample_messages(rng: &mut StdRng, thorough: bool) -> Vec<Message<'static>> {
         v.push(Message::Unknown(Frame::new(ad, MsgType(2), Data::try_new(vec![0x00, 0x00]).unwrap())));
         v.push(Message::Unknown(Frame::new(ad, MsgType(rng.gen_range(7..=255)), Data::try_new(vec![rng.r#gen(); rng.gen_range(0..5)]).unwrap())));
     }
+    // the heaviest frames there are (every byte 0xFF: the largest checksum totals)
+    v.push(Message::SendData(Offset(0xFFFF), Data::try_new(vec![0xFF; 255]).unwrap()));
+    v.push(Message::SendData(Offset(0xFF00), Data::try_new(vec![0xFF; 254]).unwrap()));
     let lens: Vec<usize> = if thorough { (0..=255).collect() } else { vec![0, 1, 2, 15, 16, 17, 254, 255] };
     for len in lens {
         let d: Vec<u8> = (0..len).map(|_| rng.r#gen()).collect();
@@ -894,6 +900,15 @@ fn reply_tapes(rng: &mut StdRng, own: u16) -> Vec<Vec<u8>> {
     let k = rng.gen_range(1..bad.len() - 2);
     bad[k] = b'G';
     firsts.push(bad);
+    // valid replies written with lower-case hex digits (a sign is free to do that), entirely and in the checksum only
+    for st8 in [State::ConfigFailed, State::PageShown, State::Unconfigured] {
+        let up = Frame::from(Message::ReportState(Address(own | 0xAB00), st8)).to_bytes_with_newline();
+        firsts.push(up.to_ascii_lowercase());
+        let mut mixed = up.clone();
+        let n = mixed.len();
+        mixed[n - 4..n - 2].make_ascii_lowercase();
+        firsts.push(mixed);
+    }
     // the bus's own requests coming back (a half-duplex adapter echoes what was written), in the addresses the messages use
     for ad in [own, 0, 0xFFFF] {
         let a2 = Address(ad);
